@@ -143,3 +143,73 @@ theorem choSolveM_add {n p : Nat} (L : Mat ℝ n n) (B B1 B2 : Mat ℝ n p)
   rw [this]; ring
 
 end Mellon
+
+namespace Mellon
+open Finset
+
+/-- Back substitution (matrix right-hand side) scales with the right-hand side. -/
+theorem solveUpperTM_smul {n p : Nat} (L : Mat ℝ n n) (a : ℝ) (B B' : Mat ℝ n p)
+    (hB : ∀ i j, i < n → j < p → B'.el i j = a * B.el i j) :
+    ∀ i j, i < n → j < p → (solveUpperTM L B').el i j = a * (solveUpperTM L B).el i j := by
+  intro i j hi hj
+  rw [solveUpperTM_el _ _ i j hi hj, solveUpperTM_el _ _ i j hi hj]
+  have h1 : ∀ k, k < n → (B'.col j).nth k = a * (B.col j).nth k + (vecOfFn (n := n) fun _ => (0:ℝ)).nth k := by
+    intro k hk
+    simp only [col_nth, hk, if_true, nth_vecOfFn, ite_self, add_zero]
+    exact hB k j hk hj
+  have := solveUpperT_linear L a (B'.col j) (B.col j) (vecOfFn fun _ => (0:ℝ)) h1 i hi
+  rw [this]
+  have key : ∀ s t, n - t = s → t < n → (solveUpperT L (vecOfFn (n := n) fun _ => (0:ℝ))).nth t = 0 := by
+    intro s
+    induction s using Nat.strong_induction_on with
+    | _ s ihs =>
+      intro t hts ht
+      rw [solveUpperT_nth L _ ht]
+      have : ∑ k ∈ Ico (t + 1) n, L.el k t * (solveUpperT L (vecOfFn (n := n) fun _ => (0:ℝ))).nth k = 0 := by
+        apply Finset.sum_eq_zero; intro k hk
+        simp only [mem_Ico] at hk
+        rw [ihs (n - k) (by omega) k rfl hk.2]; ring
+      rw [this]; simp
+  rw [key (n - i) i rfl hi]; ring
+
+/-- … and each solution column depends on the matching right-hand-side column only. -/
+theorem solveUpperTM_col {n p p' : Nat} (L : Mat ℝ n n) (B : Mat ℝ n p) (B' : Mat ℝ n p') (j j' : Nat)
+    (hj : j < p) (hj' : j' < p') (hcol : ∀ i, i < n → B.el i j = B'.el i j') :
+    ∀ i, i < n → (solveUpperTM L B).el i j = (solveUpperTM L B').el i j' := by
+  intro i hi
+  rw [solveUpperTM_el _ _ i j hi hj, solveUpperTM_el _ _ i j' hi hj']
+  have hc : B.col j = B'.col j' := by
+    unfold Mat.col vecOfFn
+    congr 1
+    funext k
+    exact hcol k.val k.isLt
+  rw [hc]
+
+/-- The DTC weights are linear in the right-hand side … -/
+theorem lmWeights_smul {n m p : Nat} (L LB : Mat ℝ m m) (A : Mat ℝ m n) (a : ℝ) (R R' : Mat ℝ n p)
+    (hR : ∀ i j, i < n → j < p → R'.el i j = a * R.el i j) :
+    ∀ i j, i < m → j < p → (lmWeights L LB A R').el i j = a * (lmWeights L LB A R).el i j := by
+  unfold lmWeights
+  apply solveUpperTM_smul
+  apply choSolveM_smul
+  intro i j hi hj
+  simp only [matMul, el_ofFn, hi, hj, and_self, if_true, nsum_eq_sum]
+  rw [Finset.mul_sum]
+  apply Finset.sum_congr rfl
+  intro t ht
+  rw [hR t j (Finset.mem_range.mp ht) hj]; ring
+
+/-- … and column-wise. -/
+theorem lmWeights_col {n m p p' : Nat} (L LB : Mat ℝ m m) (A : Mat ℝ m n) (R : Mat ℝ n p) (R' : Mat ℝ n p')
+    (j j' : Nat) (hj : j < p) (hj' : j' < p') (hcol : ∀ i, i < n → R.el i j = R'.el i j') :
+    ∀ i, i < m → (lmWeights L LB A R).el i j = (lmWeights L LB A R').el i j' := by
+  unfold lmWeights
+  apply solveUpperTM_col _ _ _ _ _ hj hj'
+  apply choSolveM_col _ _ _ _ _ hj hj'
+  intro i hi
+  simp only [matMul, el_ofFn, hi, hj, hj', and_self, if_true, nsum_eq_sum]
+  apply Finset.sum_congr rfl
+  intro t ht
+  rw [hcol t (Finset.mem_range.mp ht)]
+
+end Mellon
